@@ -29,7 +29,18 @@ def composable(t):
         return composable(t[1])
     if k == "FB":
         return composable(t[2])
-    return False  # SEG, SEGN, SEG2, MR
+    return False  # segregators, MR
+
+
+SEG_BIN = {"SEG": "fm::threshold_segregatable", "NSEG": "node_only_segregatable", "ESEG": "element_segregatable"}
+SEG_NULL = {"SEGN": "fm::threshold_segregatable", "NSEGN": "node_only_segregatable"}
+SEG_TERN = ("SEG2", "ESEG2")
+SEG_ALL = tuple(SEG_BIN) + tuple(SEG_NULL) + SEG_TERN
+CUSTOM = ("NSEG", "ESEG", "NSEGN", "ESEG2")
+
+
+def uses_custom(t):
+    return t[0] in CUSTOM or any(uses_custom(c) for c in t[1:])
 
 
 def well_formed(t):
@@ -44,7 +55,7 @@ def well_formed(t):
 
 
 def has_null(t):
-    return t[0] == "SEGN" or any(has_null(c) for c in t[1:])
+    return t[0] in SEG_NULL or any(has_null(c) for c in t[1:])
 
 
 def max_align(t):
@@ -52,7 +63,7 @@ def max_align(t):
     k = t[0]
     if k in ("L", "S"):
         return 64
-    if k in ("SEG", "SEGN", "SEG2"):
+    if k in SEG_ALL:
         return 16  # binary_segregator has no max_alignment() (member is misspelt): traits default
     if k == "MR":
         return 1 << 30
@@ -68,7 +79,7 @@ def stateless(t):
 def bases(t):
     """marker classes the composition type inherits from (the adapters store the wrapped allocator as a base)"""
     k = t[0]
-    if k in ("L", "S", "MR", "SEGN"):
+    if k in ("L", "S", "MR") or k in SEG_NULL:
         return set()
     if k == "REF":
         return {"mutex<no_mutex>"}
@@ -82,7 +93,7 @@ def bases(t):
         return bases(t[1])
     if k == "TR":
         return {"tracker"} | bases(t[1])
-    if k in ("SEG", "SEG2"):
+    if k in SEG_BIN or k in SEG_TERN:
         return bases(t[-1])
     if k == "FB":
         return bases(t[1]) | bases(t[2])
@@ -160,19 +171,21 @@ class Emit:
             T, E, m = self.go(t[1])
             return ("fm::memory_resource_allocator",
                     f"fm::memory_resource_allocator(&e.keep<fm::memory_resource_adapter<{T}>>({E}))", m)
-        if k == "SEGN":
+        if k in SEG_NULL:
             s = self.ns
             self.ns += 1
             T, E, m = self.go(t[1])
-            W = f"fm::segregator<fm::threshold_segregatable<{T}>>"
-            return W, f"{W}(fm::threshold_segregatable<{T}>(e.threshold({s}), {E}))", m
-        if k == "SEG":
+            G = f"{SEG_NULL[k]}<{T}>"
+            W = f"fm::segregator<{G}>"
+            return W, f"{W}({G}(e.threshold({s}), {E}))", m
+        if k in SEG_BIN:
             s = self.ns
             self.ns += 1
             T1, E1, m1 = self.go(t[1])
             T2, E2, m2 = self.go(t[2])
-            W = f"fm::binary_segregator<fm::threshold_segregatable<{T1}>, {T2}>"
-            return W, f"{W}(fm::threshold_segregatable<{T1}>(e.threshold({s}), {E1}), {E2})", m1 | m2
+            G = f"{SEG_BIN[k]}<{T1}>"
+            W = f"fm::binary_segregator<{G}, {T2}>"
+            return W, f"{W}({G}(e.threshold({s}), {E1}), {E2})", m1 | m2
         if k == "SEG2":
             s = self.ns
             self.ns += 2
@@ -182,6 +195,16 @@ class Emit:
             W = f"fm::segregator<fm::threshold_segregatable<{T1}>, fm::threshold_segregatable<{T2}>, {T3}>"
             return (W, f"fm::make_segregator(fm::threshold(e.threshold({s}), {E1}), "
                        f"fm::threshold(e.threshold({s + 1}), {E2}), {E3})", m1 | m2 | m3)
+        if k == "ESEG2":  # segregator<> alias with two user-written Segregatables
+            s = self.ns
+            self.ns += 2
+            T1, E1, m1 = self.go(t[1])
+            T2, E2, m2 = self.go(t[2])
+            T3, E3, m3 = self.go(t[3])
+            G1, G2 = f"element_segregatable<{T1}>", f"node_only_segregatable<{T2}>"
+            W = f"fm::segregator<{G1}, {G2}, {T3}>"
+            return (W, f"fm::make_segregator({G1}(e.threshold({s}), {E1}), {G2}(e.threshold({s + 1}), {E2}), {E3})",
+                    m1 | m2 | m3)
         if k == "FB":
             T1, E1, m1 = self.go(t[1])
             T2, E2, m2 = self.go(t[2])
@@ -207,6 +230,19 @@ def level(prev, leaf=("L",)):
     return out
 
 
+def custom_level(prev, leaf=("L",), first=False):
+    """segregators with user-written Segregatables (node rule != array rule) over the previous level"""
+    out = []
+    for x in prev:
+        for k in ("NSEG", "ESEG"):
+            out.append((k, x, leaf))
+            out.append((k, leaf, x))
+        if first:
+            out.append(("NSEGN", x))
+            out.append(("ESEG2", x, leaf, leaf))
+    return out
+
+
 def enumerate_compositions(max_depth, limit_depth3=None):
     """all well-formed compositions up to max_depth (binary adapters: one child ranges over all compositions of
     depth d-1, the other children are leaves), plus the depth-1 compositions over stateless leaves"""
@@ -223,13 +259,23 @@ def enumerate_compositions(max_depth, limit_depth3=None):
     cur = [("L",)]
     add(("L",))
     add(("S",))
-    for t in level([("S",)], leaf=("S",)):
+    for t in level([("S",)], leaf=("S",)) + custom_level([("S",)], leaf=("S",), first=True):
         add(t)
+    custom1 = []
     for d in range(1, max_depth + 1):
         nxt = []
         for t in level(cur):
             if add(t):
                 nxt.append(t)
+        # custom segregators: built over the previous level, not fed into the next one, except that the
+        # depth-1 ones are also put under every unary wrapper at depth 2
+        for t in custom_level(cur, first=(d == 1)):
+            if add(t) and d == 1:
+                custom1.append(t)
+        if d == 2:
+            for x in custom1:
+                for u in UNARY:
+                    add((u, x))
         cur = nxt
     return out
 
@@ -271,6 +317,8 @@ def any_tracked_noncomposable(t):
 def typed_mode(t, tier):
     """0 none, 1 reduced set (5 value types), 2 full matrix (5 sizes x 7 alignments), 3 mini (2 value types)"""
     d = depth(t)
+    if uses_custom(t) and d >= 3:
+        return 0
     if tier == "quick":
         return {0: 2, 1: 1}.get(d, 3)
     return {0: 2, 1: 2, 2: 1}.get(d, 3)
